@@ -83,10 +83,25 @@ pub fn is_wire_name(n: &str) -> bool {
 pub struct Scope {
     pub wires: Vec<(String, W)>,        // readable names with their widths (wires and constants)
     pub counts: std::collections::BTreeMap<&'static str, u64>,
+    /// width mutation: the `sabotage_at`-th call of `gen` produces an expression of a perturbed width
+    pub sabotage_at: Option<u64>,
+    pub calls: u64,
+}
+
+pub fn perturb(rng: &mut Rng, w: W) -> W {
+    match w {
+        W::Unl => W::Bits(*rng.pick(&WIDTHS)),
+        W::Bits(n) => match rng.below(5) {
+            0 => W::Unl,
+            1 if n < 128 => W::Bits(n + 1),
+            2 if n > 0 => W::Bits(n - 1),
+            _ => { let m = *rng.pick(&WIDTHS); if m == n { W::Bits(if n < 128 { n + 1 } else { n - 1 }) } else { W::Bits(m) } }
+        },
+    }
 }
 
 impl Scope {
-    pub fn new(wires: Vec<(String, W)>) -> Scope { Scope { wires, counts: Default::default() } }
+    pub fn new(wires: Vec<(String, W)>) -> Scope { Scope { wires, counts: Default::default(), sabotage_at: None, calls: 0 } }
     fn hit(&mut self, k: &'static str) { *self.counts.entry(k).or_insert(0) += 1; }
     fn names_of(&self, w: W) -> Vec<String> {
         self.wires.iter().filter(|x| x.1 == w).map(|x| x.0.clone()).collect()
@@ -137,6 +152,8 @@ fn condition(rng: &mut Rng, sc: &mut Scope, depth: u32) -> GExpr {
 
 /// expression whose static width (default features) is `target`
 pub fn gen(rng: &mut Rng, sc: &mut Scope, target: W, depth: u32) -> GExpr {
+    sc.calls += 1;
+    let target = if sc.sabotage_at == Some(sc.calls) { sc.hit("mutated"); perturb(rng, target) } else { target };
     if depth == 0 || rng.chance(1, 7) {
         return leaf(rng, sc, target);
     }
@@ -276,8 +293,9 @@ pub fn operand_scope(rng: &mut Rng) -> (Scope, String) {
     (Scope::new(wires), decls)
 }
 
-pub fn expr_program(rng: &mut Rng, depth: u32) -> (ExprProgram, Scope) {
+pub fn expr_program(rng: &mut Rng, depth: u32, mutate: bool) -> (ExprProgram, Scope) {
     let (mut sc, mut text) = operand_scope(rng);
+    if mutate { sc.sabotage_at = Some(rng.range(1, 1 + 3 * depth as u64)); }
     let target = if rng.chance(1, 8) { W::Unl } else { W::Bits(*rng.pick(&WIDTHS)) };
     let e = gen(rng, &mut sc, target, depth);
     // declared width of the target wire: the expression's width (an unsized expression may go anywhere)
